@@ -640,9 +640,14 @@ package yang
 // Process is outside the subset (reflection through ToEntry). Assumed: it
 // never removes or replaces a module that is loaded (it only adds modules that
 // imports and includes name).
-//@ func (*Modules).Process props C18
-//@   only before:
+//@ func (*Modules).Process props C18 C07
+//@   only before: loop6/body loop9/body
 //@   ensures ms.Modules == old(ms.Modules) && (forall k string :: old(ms.Modules[k]) != nil ==> ms.Modules[k] == old(ms.Modules[k]))   -- not claimed (only): assumed at call sites
+//@   loop 6
+//@     body_ensures[every-module-still-listed-gets-a-pass-and-stays-listed-while-it-keeps-augments] calls("(*Entry).Augment") > old(calls("(*Entry).Augment"))
+//@             && ((s != 0 && len(mods) == old(len(mods)) && i == old(i) + 1) || (s == 0 && len(mods) == old(len(mods)) - 1 && i == old(i)))   -- dropped from the list exactly when no augment of it was left over
+//@   loop 9
+//@     body_ensures[what-is-left-gets-the-pass-that-reports] calls("(*Entry).Augment") > old(calls("(*Entry).Augment"))
 //@   before[per-run-state-is-reset-before-anything-of-a-run-reads-it] (*Modules).process ms.mergedSubmodule != nil && len(ms.mergedSubmodule) == 0 && ms.entryCache != nil && len(ms.entryCache) == 0
 //@   before[imports-and-includes-are-bound-afresh-by-every-run] (*Modules).process ms.includes != nil && len(ms.includes) == 0
 // process links every module of the set, whatever key it is filed under (a
